@@ -115,8 +115,10 @@ impl Hasher for Rp62_248 {
         // every 7-byte chunk is guaranteed to map to some field element.
         let mut i = 0;
         let mut buf = [0_u8; 8];
-        for chunk in bytes.chunks(7) {
-            if i < num_elements - 1 {
+        for (index, chunk) in bytes.chunks(7).enumerate() {
+            // `i` is the position within the current rate block (it is reset after every
+            // permutation), so the last chunk must be recognized by its global index
+            if index < num_elements - 1 {
                 buf[..7].copy_from_slice(chunk);
             } else {
                 // if we are dealing with the last chunk, it may be smaller than 7 bytes long, so
